@@ -2,7 +2,7 @@
 //! number by number (bitwise against the IEEE primitive) and therefore pointwise.
 use crate::common::*;
 use serde_json::{json, Value};
-use std::ops::{Add, Mul, MulAssign, Neg, Sub};
+use std::ops::{Add, Mul, MulAssign, Neg};
 use std::sync::Arc;
 use xplore::*;
 
